@@ -604,6 +604,10 @@ C16_TEXTS = [
     ("integer-options-in-another-unit-and-a-condition", 'x int = 2000 m\n  !options [2,3] km\n  !condition ("{?} >= 2500 m")', False, []),
     ("integer-options-in-another-unit-condition-holds", 'x int = 2000 m\n  !options [2,3] km\n  !condition ("{?} < 2500 m && {?} > 100")', True, [("x", 2000)]),
     ("integer-option-lines-in-another-unit-symbolic", 'x int = {?v0} m\n  = 2 km\n  = 3 km\n  !condition ("{?} < 2500 m")', ("eq", v0, 2000), [("x", v0)]),
+    # every option written is an option: the same number on an option line and in an option list with ANOTHER unit are two options
+    ("same-number-as-option-line-and-in-a-list-of-another-unit", 'wd float = {?v0} m\n  = 5 cm\n  !options [5,10] m', ("in", v0, [5, 10]), [("wd", v0)]),
+    ("same-number-in-two-option-lists-of-different-units", 'sz float = {?v0} m\n  !options [12,13] cm\n  !options [12,14] m', ("in", v0, [12, 14]), [("sz", v0)]),
+    ("same-integer-as-option-line-and-in-a-list-of-another-unit", 'dp int = {?v0} m\n  = 2 km\n  !options [2,3] m', ("in", v0, [2, 3, 2000]), [("dp", v0)]),
     ("array-bounds-of-the-definition-hold-for-a-typed-reassignment", "counts int[2] = [1,2]\ncounts int[:] = [1,2,3]", False, []),
     ("array-bounds-of-the-definition-hold-for-an-untyped-reassignment", "counts int[2] = [1,2]\ncounts = [1,2,3]", False, []),
     ("array-reassignment-within-the-bounds", "counts int[1:3] = [1,2]\ncounts int[:] = [4,5,6]\nm float[2,2] = [[1,2],[3,4]]\nm = [[5,6],[7,8]]", True, []),
